@@ -893,7 +893,20 @@ def config_state(src: Path, ex: Any) -> dict:
                     if isinstance(n, ast.Call) and _norm(n.func) in ("setattr", "object.__setattr__") and any(
                             isinstance(a, ast.Constant) and a.value == "_quic_addresses" for a in n.args):
                         elsewhere.append(path.name)
-            out["reset"] = bool(first_ok and len(uses) == len(appends) and not elsewhere)
+            shape_a = first_ok and len(uses) == len(appends)
+            # the other spelling: the list is built in a local (or a comprehension) and bound to the attribute once, unconditionally
+            all_uses = [n for st in body for n in ast.walk(st) if isinstance(n, ast.Attribute) and n.attr == "_quic_addresses"]
+            top_stores = [st for st in body if isinstance(st, ast.Assign) and len(st.targets) == 1 and attr_of(st.targets[0]) == (me, "_quic_addresses")]
+            fresh_locals = {st.targets[0].id for st in body if isinstance(st, ast.Assign) and len(st.targets) == 1
+                            and isinstance(st.targets[0], ast.Name) and _mutable_value(st.value)
+                            and not any(isinstance(n, ast.Attribute) and n.attr == "_quic_addresses" for n in ast.walk(st.value))}
+            fresh_locals |= {st.target.id for st in body if isinstance(st, ast.AnnAssign) and isinstance(st.target, ast.Name)
+                             and _mutable_value(st.value)}
+            params = {a.arg for a in fn.args.args + fn.args.kwonlyargs}
+            shape_b = len(top_stores) == 1 and len(all_uses) == 1 and (
+                (_mutable_value(top_stores[0].value) and not isinstance(top_stores[0].value, ast.Call))
+                or (isinstance(top_stores[0].value, ast.Name) and top_stores[0].value.id in fresh_locals - params))
+            out["reset"] = bool((shape_a or shape_b) and not elsewhere)
     except Exception as e:
         ex.fail("quicAddressesReset", f"{type(e).__name__}: {e}")
     return out
